@@ -3,7 +3,7 @@
 (*   xml_roundtrip / pb_roundtrip   d, desc (descriptor), orig (leaves of the objects the harness built),         *)
 (*                                  back (leaves read back, reals as closeness classes), exc ("" | write | read)  *)
 (*   xsd                            els / ids / refs (element entries of the written document), lxml verdict,      *)
-(*                                  reader ("ok" | "exc"), exc ("" | "write")                                      *)
+(*                                  reader ("ok" | "exc"), exc ("")                                      *)
 (* Expected leaves, carried fields, expressibility and the schema verdict come from Codec / Xsd2020a; the clause  *)
 (* prefix names the owning property (C01 xml_roundtrip, C02 pb_roundtrip, C03 xsd).                               *)
 EXTENDS Codec, Json, IOUtils
@@ -23,7 +23,7 @@ Clause(e) ==
   CASE e.op = "xml_roundtrip" -> RoundTrip(e, "xml")
     [] e.op = "pb_roundtrip"  -> RoundTrip(e, "pb")
     [] e.op = "xsd" ->
-         IF e.exc # "" THEN "C03.Total/write"
+         IF e.exc # "" THEN "driver/no-document"               \* a writer crash is C01.Total/write; C03 speaks about written files
          ELSE LET r == DocRule(e.els, e.ids, e.refs) IN        \* lxml only cross-checks the transcription
               IF (r = "") # (e.lxml = "valid") THEN "machinery/schema-transcription"
               ELSE IF r # "" THEN "C03." \o r
